@@ -397,7 +397,11 @@ def snapshot_agrees(run, f):
             if a0[0] == "call" and a0[2].endswith("Deref::deref"):
                 a0 = strip_refs(tr.norm(tr.call_args(a0[1])[0]))
             ar = f.adts["actor_ref::ActorRef"]["variants"][0]["fields"]
-            ok_ = a0[0] == "field" and ar[a0[1]]["name"] == "metrics" and strip_refs(a0[2]) == ("param", 1)
+            if a0[0] == "call" and a0[2] in __import__("anchors").metrics_accessors(f):
+                # through the crate's own accessor of the collector (`self.metrics_collector()`)
+                ok_ = strip_refs(tr.norm(tr.call_args(a0[1])[0])) == ("param", 1)
+            else:
+                ok_ = a0[0] == "field" and ar[a0[1]]["name"] == "metrics" and strip_refs(a0[2]) == ("param", 1)
         run.require(ok_, "O20.4", "actorref-forwards:%s" % nm, "ActorRef::%s returns %s" % (nm, show(r)), "forwards to the collector's %s" % tgt.split("::")[-1])
 
 
